@@ -101,6 +101,9 @@ const c10Misc = "on:\n  push:\n    branches: ['a b']\n  issues:\n    types: [ope
 // jobs that derive matrix types from shared context types and then extend / narrow them, and a file that reads those contexts
 const c10CtxMatrix = "on: push\njobs:\n  a:\n    runs-on: ubuntu-latest\n    strategy:\n      matrix:\n        include:\n          - ${{ github.event }}\n          - foo: 1\n    steps:\n      - run: echo ${{ matrix.foo }}\n  b:\n    runs-on: ubuntu-latest\n    strategy:\n      matrix:\n        include:\n          - ${{ vars }}\n          - zeta: {x: 1}\n    steps:\n      - run: echo ${{ github.event.commits.*.author.name }} ${{ github.event.*.id }}\n  c:\n    runs-on: ubuntu-latest\n    strategy:\n      matrix: ${{ github.event }}\n    steps:\n      - run: echo ${{ matrix.x }}\n"
 const c10CtxReader = "on: push\njobs:\n  r:\n    runs-on: ubuntu-latest\n    steps:\n      - run: echo ${{ github.event.foo.bar }} ${{ github.event.include.x }} ${{ vars.zeta.x }} ${{ github.event.commits.id.x }}\n"
+// a reusable workflow that spells its booleans the other ways YAML allows (True / TRUE), and a caller that supplies nothing
+const c10ReusableCaps = "on:\n  workflow_call:\n    inputs:\n      need:\n        type: string\n        required: True\n      opt:\n        type: string\n        required: False\n    secrets:\n      tok:\n        required: TRUE\njobs:\n  j:\n    runs-on: ubuntu-latest\n    steps:\n      - run: echo\n"
+const c10CallerCaps = "on: push\njobs:\n  c:\n    uses: ./.github/workflows/reusable-caps.yml\n"
 const c10Action = "name: act\ndescription: d\ninputs:\n  x:\n    description: d\n    required: true\nruns:\n  using: composite\n  steps:\n    - run: echo\n      shell: bash\n"
 
 func runC10(c *ctx, r *Report) error {
@@ -109,7 +112,7 @@ func runC10(c *ctx, r *Report) error {
 	if !c.quick {
 		nOrders = 40
 	}
-	r.Rule = fmt.Sprintf("a scratch tree with two repositories whose directory names share a prefix (repo, repo2) and different configurations (config-variables, self-hosted labels), a well-formed local action and a local reusable workflow called from another file; every non-empty subset of the 9 workflow files (one of them builds matrices out of shared context types, one reads those contexts) × %d random argument orders × GOMAXPROCS ∈ {1,4,16}: the diagnostics LintFiles returns for each file must equal those of LintFile on a fresh linter for that file alone — in particular whether the called reusable workflow is part of the run or not — and a fingerprint of every exported built-in table (webhook types, popular actions, function signatures, context types, untrusted inputs, special functions, branding tables) must be unchanged after each run; non-trivial = distinct (subset, order, GOMAXPROCS) runs with ≥ 2 files", nOrders)
+	r.Rule = fmt.Sprintf("a scratch tree with two repositories whose directory names share a prefix (repo, repo2) and different configurations (config-variables, self-hosted labels), a well-formed local action and a local reusable workflow called from another file; every non-empty subset (quick tier: a sample of the larger ones) of the 11 workflow files (one of them builds matrices out of shared context types, one reads those contexts) × %d random argument orders × GOMAXPROCS ∈ {1,4,16}: the diagnostics LintFiles returns for each file must equal those of LintFile on a fresh linter for that file alone — in particular whether the called reusable workflow is part of the run or not — and a fingerprint of every exported built-in table (webhook types, popular actions, function signatures, context types, untrusted inputs, special functions, branding tables) must be unchanged after each run; non-trivial = distinct (subset, order, GOMAXPROCS) runs with ≥ 2 files", nOrders)
 	tmp, err := os.MkdirTemp("", "verif-c10-")
 	if err != nil {
 		return err
@@ -127,11 +130,11 @@ func runC10(c *ctx, r *Report) error {
 			os.WriteFile(filepath.Join(root, ".github", "workflows", n), []byte(s), 0o644)
 		}
 	}
-	mk("repo", "self-hosted-runner:\n  labels: [gpu-box]\nconfig-variables: [ZETA, DEPLOY_ENV, ALPHA]\n", map[string]string{"reusable.yml": c10Reusable, "caller.yml": c10Caller, "misc.yml": c10Misc, "ctxmatrix.yml": c10CtxMatrix, "ctxreader.yml": c10CtxReader, "clean.yml": "on: push\njobs:\n  j:\n    runs-on: ubuntu-latest\n    steps:\n      - run: echo\n"})
+	mk("repo", "self-hosted-runner:\n  labels: [gpu-box]\nconfig-variables: [ZETA, DEPLOY_ENV, ALPHA]\n", map[string]string{"reusable.yml": c10Reusable, "caller.yml": c10Caller, "misc.yml": c10Misc, "ctxmatrix.yml": c10CtxMatrix, "ctxreader.yml": c10CtxReader, "reusable-caps.yml": c10ReusableCaps, "caller-caps.yml": c10CallerCaps, "clean.yml": "on: push\njobs:\n  j:\n    runs-on: ubuntu-latest\n    steps:\n      - run: echo\n"})
 	mk("repo2", "self-hosted-runner:\n  labels: []\nconfig-variables: [UNKNOWN_VAR]\n", map[string]string{"reusable.yml": c10Reusable, "caller.yml": c10Caller, "misc.yml": c10Misc})
 	var files []string
 	for _, repo := range []string{"repo", "repo2"} {
-		for _, n := range []string{"reusable.yml", "caller.yml", "misc.yml", "clean.yml", "ctxmatrix.yml", "ctxreader.yml"} {
+		for _, n := range []string{"reusable.yml", "caller.yml", "misc.yml", "clean.yml", "ctxmatrix.yml", "ctxreader.yml", "reusable-caps.yml", "caller-caps.yml"} {
 			p := filepath.Join(tmp, repo, ".github", "workflows", n)
 			if _, err := os.Stat(p); err == nil {
 				files = append(files, p)
